@@ -57,6 +57,8 @@ def gen(rng, tier):
         {"pred": "_a_v_1", "label": "h1", "args": [["ARG0", "e2"], ["ARG1", "e3"]]},
         {"pred": "_b_v_1", "label": "h1", "args": [["ARG0", "e3"], ["ARG1", "e2"]]}],
         "hcons": [["h0", "qeq", "h1"]], "icons": [], "vars": []}})
+    # ... and its second trigger: every member blocked by a predication below the other's scopal argument
+    cases.append({"k": "mrs", "m": F8_FAMILY})
     for _ in range(n // 3):
         labels = ["h%d" % i for i in range(rng.randrange(1, 7))]
         scopes = [[l, ["%s_%d" % (l, j) for j in range(rng.randrange(0, 3))]] for l in labels]
@@ -233,9 +235,47 @@ def _mutual_cycle(m):
     return False
 
 
+def _all_members_blocked(m):
+    """F8, second trigger: within one label every member takes as a non-scopal argument the intrinsic
+    variable of another member or of a predication below the scope (reached through the scopal arguments
+    of the members), so the representatives test rejects all of them"""
+    rels = m["rels"]
+    qeq = dict((h[0], h[2]) for h in m["hcons"])
+    by_label = {}
+    for r in rels:
+        by_label.setdefault(r["label"], []).append(r)
+    ivof = lambda r: dict((a, b) for a, b in r["args"]).get("ARG0")
+    for l, members in by_label.items():
+        if len(members) < 2:
+            continue
+        below, todo = [], [qeq.get(v, v) for r in members for role, v in r["args"] if v and v[0] == "h"]
+        while todo:
+            lb = todo.pop()
+            for x in by_label.get(lb, []):
+                if x not in below and x not in members:
+                    below.append(x)
+                    todo.extend(qeq.get(v, v) for role, v in x["args"] if v and v[0] == "h")
+        blockers = [ivof(x) for x in below]
+        def blocked(r):
+            vals = [v for role, v in r["args"] if role not in ("ARG0", "CARG")]
+            return any(v in blockers for v in vals) or \
+                any(ivof(o) in vals for o in members if o is not r)
+        if all(blocked(r) for r in members):
+            return True
+    return False
+
+
+F8_FAMILY = {"top": "h0", "index": "e1", "rels": [
+    {"pred": "_p_v_1", "label": "h1", "args": [["ARG0", "e1"], ["ARG1", "x5"], ["ARG2", "h2"]]},
+    {"pred": "_q_v_1", "label": "h1", "args": [["ARG0", "e3"], ["ARG1", "x6"], ["ARG2", "h4"]]},
+    {"pred": "_a_n_1", "label": "h7", "args": [["ARG0", "x6"]]},
+    {"pred": "_b_n_1", "label": "h8", "args": [["ARG0", "x5"]]}],
+    "hcons": [["h0", "qeq", "h1"], ["h2", "qeq", "h7"], ["h4", "qeq", "h8"]], "icons": [], "vars": []}
+
+
 def known_match(case, failure, known):
     if case.get("k") == "mrs" and isinstance(failure, str) and "has no representative" in failure \
-            and _mutual_cycle(case["m"]):
+            and (_mutual_cycle(case["m"]) or _all_members_blocked(case["m"])):
         for e in known:
             if e["id"] == "F8":
                 return "F8"
